@@ -345,7 +345,9 @@ func inClass(gt *gType) bool {
 		if bt == reflect.TypeOf(Picky("")) || bt == reflect.TypeOf(RevStr("")) {
 			return false
 		}
-		if f.enc == "bogus" || (f.enc == "none" && !isIntLike(f.typ)) {
+		// enc:none on integers, and on plain strings / byte slices / byte arrays (any byte may be stored there: the
+		// value-side predicate keeps delimiters out)
+		if f.enc == "bogus" || (f.enc == "none" && !isIntLike(f.typ) && !(bt == tString || bt == tBytes || bt.Kind() == reflect.Array)) {
 			return false
 		}
 		if f.base != 0 && (f.base < 2 || f.base > 36) {
@@ -569,7 +571,11 @@ func presentable(gt *gType, p reflect.Value) bool {
 		case reflect.Slice:
 			s = string(v.Bytes())
 		case reflect.Array:
-			s = strings.Repeat("x", v.Len())
+			b := make([]byte, v.Len())
+			for k := range b {
+				b[k] = byte(v.Index(k).Uint())
+			}
+			s = string(b)
 		default:
 			s = "1"
 			// a pointer field is empty when it is nil (handled above), whatever it points to: *uint32 -> 0 is written "0"
@@ -582,6 +588,15 @@ func presentable(gt *gType, p reflect.Value) bool {
 			return "", false
 		}
 		return s, true
+	}
+	// no delimiter inside a text ('$', ','), and no '=' in a text that is not preceded by its own "key=" (a positional
+	// value "a=b" would read as parameter a): such values are inherently ambiguous (the Coq class excludes them too)
+	for i := range fs {
+		if s, present := textOf(i); present {
+			if strings.ContainsAny(s, "$,") || fs[i].param == "" && strings.Contains(s, "=") {
+				return false
+			}
+		}
 	}
 	// required pointer fields must be non-nil (Unmarshal allocates)
 	for i, f := range fs {
